@@ -82,3 +82,29 @@ Definition scan_calls (dest : nat) (cs : list call) : scan := fold_left (scan_st
 (* the order of calls is acceptable; if the save claims success it must have published *)
 Definition calls_ok (dest : nat) (cs : list call) (completed : bool) : bool :=
   let s := scan_calls dest cs in sc_ok s && (negb completed || sc_published s).
+
+(* The same requirement read off the KERNEL's view of the part file (system calls, as traced by strace):
+   the publication must come after every byte of the new content has been written AND a later fsync,
+   and nothing is written afterwards. *)
+Inductive kcall :=
+| KCreate (excl : bool)      (* the part file is created *)
+| KWrite (n : N)             (* n bytes written to it *)
+| KFsync                     (* fsync/fdatasync of it *)
+| KPublish                   (* rename/link onto the destination *)
+| KOther.                    (* unlink, chmod, ... *)
+
+Record kscan := mkK { k_ok : bool; k_written : N; k_synced : N; k_published : bool }.
+
+Definition kscan_step (new_len : N) (s : kscan) (c : kcall) : kscan :=
+  match c with
+  | KCreate excl => mkK (k_ok s && excl && negb (k_published s)) 0 0 (k_published s)
+  | KWrite n => mkK (k_ok s && negb (k_published s)) (k_written s + n) (k_synced s) (k_published s)
+  | KFsync => mkK (k_ok s) (k_written s) (k_written s) (k_published s)
+  | KPublish => mkK (k_ok s && negb (k_published s) && (k_written s =? new_len) && (k_synced s =? new_len))
+                    (k_written s) (k_synced s) true
+  | KOther => s
+  end.
+
+Definition kernel_ok (new_len : N) (completed : bool) (cs : list kcall) : bool :=
+  let s := fold_left (kscan_step new_len) cs (mkK true 0 0 false) in
+  k_ok s && (negb completed || k_published s).
